@@ -16,7 +16,12 @@ import (
 // insert inserts the data returned by s.insertGen, as on Ctrl+I.
 // No error is returned; all errors are handled by sending messages to the
 // user.
-func (s *Shell) insert() {
+// wait and done come from s.sendTurn and keep the inserted data in its place
+// amongst the lines the user types.
+func (s *Shell) insert(wait, done func()) {
+	wait()
+	defer done()
+
 	/* errf logs an error to the shell. */
 	errf := func(format string, args ...any) {
 		s.Logf(
